@@ -110,11 +110,14 @@ Fuel = length of the text. -/
 def untilPeriodGo : Nat → Line → Option (Line × Line)
   | 0, _ => none
   | _, [] => none
-  | fuel + 1, '.' :: c :: rest =>
-    if isWs c then some ([], rest)
-    else (untilPeriodGo fuel (c :: rest)).map fun p => ('.' :: p.1, p.2)
   | fuel + 1, c :: rest =>
-    if isQuote c then
+    if c == '.' then
+      match rest with
+      | w :: rest' =>
+        if isWs w then some ([], rest')
+        else (untilPeriodGo fuel rest).map fun p => ('.' :: p.1, p.2)
+      | [] => none
+    else if isQuote c then
       match closeQuote c rest with
       | some (lit, after) => (untilPeriodGo fuel after).map fun p => (c :: lit ++ c :: p.1, p.2)
       | none => (untilPeriodGo fuel rest).map fun p => (c :: p.1, p.2)
